@@ -26,7 +26,7 @@ PROP = "C11"
 SIG_MASS = "mass-without-charge"
 SIG_EDGE = "residue-edge-without-bond"
 SIG_ARZ = "angle-restraints-z-reversed"
-DEVS = ["dropSection", "guardLost", "closeLate", "parTrunc", "noResid", "swapResidResname", "readerSkip", "canonConstraints"]
+DEVS = ["noFile", "dropSection", "guardLost", "closeLate", "parTrunc", "noResid", "swapResidResname", "readerSkip", "canonConstraints"]
 STAGES = {0: "the output file was not written", 1: "the written text does not read (by the specification's Read) as the molecule that was built",
           2: "the molecule returned by Topology.from_gmx_topfile differs from what the written text says",
           3: "MetaMolecule.from_itp and Topology.from_gmx_topfile return different molecules for the same file",
@@ -94,14 +94,14 @@ def judge(cs, rec):
     if d:
         # exact classifier of a known finding: the law fails for this molecule in the specification itself (TLC names the clause) and
         # the code returns precisely what the specification's Write/Read give (pred)
-        if not cs["law"] and cs["finding"] in (SIG_MASS, SIG_ARZ) and not _mol_diff(cs["pred"], rec["read"]) and not _mol_diff(cs["pred"], rec["read2"]):
-            return "known:" + cs["finding"], d
+        if not cs["law"] and cs["pred"]["finding"] in (SIG_MASS, SIG_ARZ) and not _mol_diff(cs["pred"], rec["read"]) and not _mol_diff(cs["pred"], rec["read2"]):
+            return "known:" + cs["pred"]["finding"], d
         return "violation", d
     if not cs["missing"] and not rec["missing"]:
         for which in ("rg", "rg2"):
             if _graph(rec[which]) != _graph(cs["rg"]):
                 what = "no link is missing but the residue graph recovered from the file is %s, requested %s" % (_graph(rec[which]), _graph(cs["rg"]))
-                if not cs["rglaw"] and _graph(rec["rg"]) == _graph(cs["rgpred"]) and _graph(rec["rg2"]) == _graph(cs["rgpred"]):
+                if not cs["rglaw"] and _graph(rec["rg"]) == _graph(cs["pred"]["rg"]) and _graph(rec["rg2"]) == _graph(cs["pred"]["rg"]):
                     return "known:" + SIG_EDGE, what
                 return "violation", what
     return "ok", ""
@@ -115,20 +115,25 @@ def _run_case(cs, variant, wd):
 
 
 def _replay_chunk(arg):
-    items, keep_every = arg
+    """one chunk file of exported cases -> [(index, status, what, record for the trace stage | None, digest, case when it is needed)]"""
+    import hashlib
+    path, keep_every, nmain = arg
+    items = json.loads(Path(path).read_text())
     res = []
     for idx, cs in items:
         with tempfile.TemporaryDirectory(prefix="verif_c11_", dir="/var/tmp") as wd:
             try:
                 rec = _run_case(cs, idx % 2, wd)
             except ValueError as exc:     # the instance promised a molecule that links can make
-                res.append((idx, "machinery", "cannot render: %s" % exc, None))
+                res.append((idx, "machinery", "cannot render: %s" % exc, None, "", None))
                 continue
         status, what = judge(cs, rec)
         slim = None
-        if status == "ok" and keep_every and idx % keep_every == 0:
+        if status == "ok" and keep_every and idx % keep_every == 0 and idx < nmain:
             slim = {k: rec.get(k) for k in SLIM}
-        res.append((idx, status, what, slim))
+        digest = hashlib.md5(json.dumps(cs["mol"], sort_keys=True).encode()).hexdigest()
+        unexpected = idx >= nmain and status == "ok" and (not cs["law"] or not cs["rglaw"])
+        res.append((idx, "ok-unexpected" if unexpected else status, what, slim, digest, cs if status not in ("ok", "refused") else None))
     return res
 
 
@@ -387,9 +392,10 @@ def binding_demo(ck, recs, known):
 # ------------------------------------------------------------------ entry points
 
 def model_jobs(tier):
-    inst = "Itp_Quick" if tier == "quick" else "Itp_Full"
-    jobs = [("fixed", inst, "Itp_fixed.cfg", {"workers": 4, "timeout": 3000}),
-            ("free", "Itp_Dev" if tier == "quick" else "Itp_Quick", "Itp_free.cfg", {"workers": 3, "timeout": 3000, "coverage": True})]
+    # the I-layer is checked on the quick instance in both tiers (thorough: any order of sections / lines on all of it); the bigger
+    # instance of the thorough tier goes through the declarative laws (export run) and the replay
+    jobs = [("fixed", "Itp_Quick", "Itp_fixed.cfg", {"workers": 4, "timeout": 3000}),
+            ("free", "Itp_Dev" if tier == "quick" else "Itp_Quick", "Itp_free.cfg", {"workers": 3 if tier == "quick" else 6, "timeout": 3000, "coverage": True})]
     for d in DEVS:
         jobs.append(("dev:" + d, "Itp_Dev", "Itp_dev_%s.cfg" % d, {"workers": 1, "check": False, "dfs": True}))
     jobs.append(("find:mass", "Itp_MassOnly", "Itp_find_massonly.cfg", {"workers": 1, "check": False}))
@@ -437,25 +443,39 @@ def run(tier):
         ck.add_tlc(exf)
         cases = ex.cases()
         find = exf.cases()
+        ex.out = exf.out = ""
         ck.require(len(cases) > 3000 and len(find) >= 40, "too few cases exported: %d + %d" % (len(cases), len(find)))
         ck.require(all(cs["law"] and cs["rglaw"] for cs in cases), "the export contains a molecule for which the law fails")
         ck.require(any(not cs["law"] for cs in find) and any(not cs["rglaw"] for cs in find), "the finding instance holds no counterexample")
         # ---- 2. S->I
         ck.stage("S->I: %d molecules + %d molecules of the finding instances through `polyply gen_params`" % (len(cases), len(find)))
-        allc = cases + find
-        items = list(enumerate(allc))
+        nmain = len(cases)
+        mid = cases[nmain // 2]
+        ck.sample({"S->I case": {"atoms": mid["mol"]["atoms"], "interactions": mid["mol"]["inter"], "requested residue edges": mid["mol"]["redges"],
+                                 "missing": mid["missing"]}, "expected interactions (admissible listings)": mid["exp"]["inter"]})
+        ngc = 40 if tier == "quick" else 400
+        gc_jobs = [(i, cases[i], sd * 1000 + k) for k, i in enumerate(_select_gc(cases, rng, ngc))]
+        # the cases go to the workers through chunk files; the parent lets go of them before it forks (a thorough export is > 1 GB
+        # of Python objects, which every forked worker would end up copying)
+        wdir = c.workdir(PROP, "export")
         keep = 8 if tier == "quick" else 40
-        parts = [(ch, keep) for ch in c.chunks(items, c.NPROC * 6)]
+        parts = []
+        for k, ch in enumerate(c.chunks(list(enumerate(cases + find)), c.NPROC * 6)):
+            f = wdir / ("chunk_%d.json" % k)
+            f.write_text(json.dumps(ch))
+            parts.append((str(f), keep, nmain))
+        del cases, find, ch
+        import gc
+        gc.collect()
         extra_recs = []
         nknown = {}
         for part in c.pmap(_replay_chunk, parts):
-            for idx, status, what, slim in part:
-                cs = allc[idx]
+            for idx, status, what, slim, digest, cs in part:
                 if status == "machinery":
                     raise c.MachineryError(what)
                 ck.replayed += 1
-                ck.count("mol:" + json.dumps(cs["mol"], sort_keys=True))
-                if slim is not None and idx < len(cases):
+                ck.count("mol:" + digest)
+                if slim is not None:
                     extra_recs.append(slim)
                 if status == "violation":
                     ck.violation({"kind": "S->I", "case": cs, "variant": idx % 2},
@@ -468,24 +488,21 @@ def run(tier):
                     sig = status[6:]
                     nknown[sig] = nknown.get(sig, 0) + 1
                     ck.violation({"kind": "S->I", "case": cs, "variant": idx % 2}, sig=sig, what=what)
-                elif idx >= len(cases) and (not cs["law"] or not cs["rglaw"]):
+                elif status == "ok-unexpected":
                     # the specification predicts a failure of the law for this molecule and the code does not show it
                     ck.extra["finding_instance_cases_not_reproduced"] = ck.extra.get("finding_instance_cases_not_reproduced", 0) + 1
         ck.extra["finding_instance_cases_classified"] = nknown
-        mid = cases[len(cases) // 2]
-        ck.sample({"S->I case": {"atoms": mid["mol"]["atoms"], "interactions": mid["mol"]["inter"], "requested residue edges": mid["mol"]["redges"],
-                                 "missing": mid["missing"]}, "expected interactions (admissible listings)": mid["exp"]["inter"]})
         # ---- 3. gen_coords consumes the file
         ck.stage("gen_coords on a stratified subset of the generated files")
-        ngc = 40 if tier == "quick" else 400
-        pick = _select_gc(cases, rng, ngc)
         nov = 0
-        for idx, status, what in c.pmap(_gc_one, [(i, cases[i], sd * 1000 + k) for k, i in enumerate(pick)]):
-            ck.count("gc:" + json.dumps(cases[idx]["mol"], sort_keys=True))
+        for idx, status, what in c.pmap(_gc_one, gc_jobs):
+            cs = next(j[1] for j in gc_jobs if j[0] == idx)
+            ck.count("gc:%d" % idx)
             if status == "noverdict":
                 nov += 1
             elif status == "violation":
-                ck.violation({"kind": "gen_coords", "case": cases[idx], "variant": idx % 2}, what=what)
+                ck.violation({"kind": "gen_coords", "case": cs, "variant": idx % 2}, what=what)
+        pick = gc_jobs
         ck.extra["gen_coords_runs"] = len(pick) - nov
         ck.extra["gen_coords_no_verdict"] = nov
         ck.require(len(pick) >= 20 and nov <= len(pick) // 5, "gen_coords subset too small or too many runs without verdict (%d of %d)" % (nov, len(pick)))
